@@ -203,7 +203,8 @@ def run (kv : List (String × String)) : IO Res := do
     match r.splitOn "." with
     | [pathHex, del, kind, rid, rson] =>
       let some path := unhex pathHex | continue
-      if del != "0" || !(kind == "whole" || kind == "split") then continue
+      if del != "0" || !(kind == "whole" || kind == "split" || kind == "clobbered") then continue
+      if kind == "clobbered" then tags := "ref.clobbered" :: tags
       let some m := ms.find? (fun m => m.name == some path) | continue
       if !isInteresting m || isContainedIn m users then continue
       let listed := tgt.filter (fun g => g.base == m.start)
